@@ -107,11 +107,117 @@ pub struct Program {
     /// fallback value of `Fb` nodes is `fb_base + node`
     #[serde(default)]
     pub fb_base: u32,
+    /// cyclic programs: nodes in [blk_lo, blk_hi) may call each other in any direction; nodes
+    /// below only call lower nodes, nodes above call lower nodes (0,0 = acyclic program)
+    #[serde(default)]
+    pub blk_lo: u16,
+    #[serde(default)]
+    pub blk_hi: u16,
+    /// non-monotone ("bad") ops are guarded by this input field being non-zero
+    #[serde(default)]
+    pub bad_guard: Option<(u16, u8, u16)>,
 }
 
 impl Program {
     pub fn node_of_kind(&self, k: Kind) -> Option<usize> {
         self.nodes.iter().position(|n| n.kind == k)
+    }
+    pub fn is_cyclic(&self) -> bool {
+        self.blk_hi > self.blk_lo
+    }
+    pub fn in_block(&self, n: usize) -> bool {
+        n >= self.blk_lo as usize && n < self.blk_hi as usize
+    }
+    /// Structural validity (used by the shrinker so that minimised programs stay inside the
+    /// class the oracle is defined for): acyclic call discipline outside the block, and inside
+    /// the block the taint discipline that keeps bodies monotone and the call-graph shape
+    /// independent of block values.
+    pub fn valid(&self) -> bool {
+        let (lo, hi) = (self.blk_lo as usize, self.blk_hi as usize);
+        for (i, node) in self.nodes.iter().enumerate() {
+            let in_blk = self.in_block(i);
+            let len = node.ops.len();
+            let mut st: Vec<Option<[bool; NREG]>> = vec![None; len + 1];
+            st[0] = Some([false; NREG]);
+            let join = |slot: &mut Option<[bool; NREG]>, s: [bool; NREG]| match slot {
+                None => *slot = Some(s),
+                Some(o) => {
+                    for k in 0..NREG {
+                        o[k] |= s[k];
+                    }
+                }
+            };
+            for pc in 0..len {
+                let Some(cur) = st[pc] else { continue };
+                let mut out = cur;
+                let ok_target = |t: usize| -> bool {
+                    if in_blk { t < hi } else { t < i }
+                };
+                let blk_t = |t: usize| t >= lo && t < hi;
+                match &node.ops[pc] {
+                    Op::Const { d, .. } | Op::In { d, .. } | Op::Untracked { d, .. } => out[*d as usize] = false,
+                    Op::Call { d, n } | Op::CallMulti { d, n, .. } | Op::MkCall { d, n } => {
+                        if !ok_target(*n as usize) {
+                            return false;
+                        }
+                        out[*d as usize] = blk_t(*n as usize);
+                    }
+                    Op::CallDyn { d, s, t } => {
+                        if t.iter().any(|x| !ok_target(*x as usize)) {
+                            return false;
+                        }
+                        if self.is_cyclic() && i < hi && cur[*s as usize] {
+                            return false;
+                        }
+                        out[*d as usize] = t.iter().any(|x| blk_t(*x as usize));
+                    }
+                    Op::Arith { d, a, b, o } => {
+                        let t = cur[*a as usize] || cur[*b as usize];
+                        if t && self.is_cyclic() && i < hi && !matches!(o, AOp::Or | AOp::And) {
+                            let bad_ok = matches!(self.bad_guard, Some((_, _, bn)) if bn as usize == i) && *o == AOp::Add;
+                            if !bad_ok {
+                                return false;
+                            }
+                        }
+                        out[*d as usize] = t;
+                    }
+                    Op::IfSkip { s, n, .. } => {
+                        if self.is_cyclic() && i < hi && cur[*s as usize] {
+                            return false;
+                        }
+                        let tgt = (pc + 1 + *n as usize).min(len);
+                        join(&mut st[tgt], cur);
+                    }
+                    Op::Ret { .. } => continue,
+                    _ => {}
+                }
+                join(&mut st[pc + 1], out);
+            }
+        }
+        // the guard of the non-monotone step must still be intact
+        if let Some((gi, gf, bn)) = self.bad_guard {
+            let ops = &self.nodes[bn as usize].ops;
+            let k = ops.len();
+            let intact = k >= 6
+                && matches!(&ops[k - 5], Op::In { d: 3, i, f } if *i == gi && *f == gf)
+                && matches!(&ops[k - 4], Op::IfSkip { s: 3, c: Cmp::Eq, k: 0, n: 2 })
+                && matches!(&ops[k - 3], Op::Const { d: 1, c: 1 })
+                && matches!(&ops[k - 2], Op::Arith { d: 0, a: 0, b: 1, o: AOp::Add })
+                && matches!(&ops[k - 1], Op::Ret { s: 0 });
+            if !intact {
+                return false;
+            }
+            // nothing may jump into the middle of the pattern
+            for (pc, op) in ops.iter().enumerate() {
+                if let Op::IfSkip { n, .. } = op {
+                    let tgt = pc + 1 + *n as usize;
+                    if pc < k - 6 && tgt > k - 6 {
+                        return false;
+                    }
+                }
+            }
+        }
+        true
     }
     pub fn shape_hash(&self) -> u64 {
         use std::hash::{Hash, Hasher};
